@@ -233,6 +233,9 @@ def normalise_atoms(atoms: Tuple[Term, ...]) -> Tuple[Term, ...]:
             a = ("L", a[1] * max(0, a[2][1]))
             if a[1] == "":
                 continue
+        elif a[0] == "rep" and len(a[1]) > 1 and len(set(a[1])) == 1:
+            # "00" * k and "0" * (2 * k) are the same text: the unit is one character
+            a = ("rep", a[1][0], Lin.of(a[2]).scale(len(a[1])).term())
         if out:
             p = out[-1]
             if p[0] == "L" and a[0] == "L":
@@ -256,6 +259,9 @@ def to_seq(v: Term, want: Optional[str] = None) -> Optional[Term]:
         if isinstance(v[1], str):
             return ("seq", "s", (("L", v[1]),) if v[1] else ())
         if isinstance(v[1], bytes):
+            if any(b >= 0x80 for b in v[1]):
+                # not text: a raw byte string, kept as its hex nibbles like every other raw value
+                return ("seq", "raw", (("L", v[1].hex()),))
             return ("seq", "b", (("L", v[1].decode("latin-1")),) if v[1] else ())
     if isinstance(v, tuple) and v and v[0] == "sym":
         t = v[2]
